@@ -339,7 +339,7 @@ def calls_params(rng, prop):
         "faults_on": sorted(rng.sample(["malformed", "crash", "restart"], rng.randint(0, 3))),
         "maker": rng.choice(["random", "closest", "farthest"]),
         "rule": rng.choice(["uniform", "skill", "upset", "tie"]),
-        "pristine_refs": rng.random() < 0.25,
+        "pristine_refs": rng.random() < 0.35,
         "fixed_rosters": rng.random() < 0.4,
         "shape": rng.choice([[4, 3], [4, 3], [4, 3], [6, 4], [8, 8]]),
         "p_other_model": rng.choice([0.0, 0.05, 0.15]),
